@@ -33,5 +33,28 @@ func (q *syntaxBasicCompareQuery) compute(
 		}
 	}
 
+	// leftFound == true && rightFound == false
+	if leftFound && !rightFound {
+		if _, ok := q.comparator.(*syntaxCompareDeepEQ); ok {
+			if _, ok := q.leftParam.param.(*syntaxQueryParamCurrentRoot); ok {
+				// The right-hand path is absent: it equals exactly the
+				// members whose own path is absent as well, whatever the
+				// other members of the container look like.
+				var hasValue bool
+				for index := range leftValues {
+					if leftValues[index] == emptyEntity {
+						leftValues[index] = true
+						hasValue = true
+					} else {
+						leftValues[index] = emptyEntity
+					}
+				}
+				if hasValue {
+					return leftValues
+				}
+			}
+		}
+	}
+
 	return emptyList
 }
